@@ -35,7 +35,7 @@ def load_transforms():
     from droopsa.props import PROPS
     out = []
     for pid in sorted(PROPS):
-        for t in ('alpha', 'alpha-locals', 'alpha-funcs', 'reformat'):
+        for t in ('alpha', 'alpha-locals', 'alpha-funcs', 'alpha-params', 'reformat', 'ifswap'):
             out.append(dict(id='twin-%s-%s' % (t, pid), prop=pid, rule=None, expect='silent', transform=t))
     return out
 
@@ -82,8 +82,11 @@ def _run_one(m):
             from droopsa.report import load_known
             if m['transform'] == 'reformat':
                 transform.reformat_tree(tmp)
+            elif m['transform'] in ('ifswap', 'mirror'):
+                transform.shape_tree(tmp, m['transform'])
             else:
-                transform.alpha_tree(tmp, do_funcs=m['transform'] != 'alpha-locals', do_locals=m['transform'] != 'alpha-funcs')
+                transform.alpha_tree(tmp, do_funcs=m['transform'] != 'alpha-locals', do_locals=m['transform'] != 'alpha-funcs',
+                                     do_params=m['transform'] == 'alpha-params')
             code, ctx, violations, known, error = run_property(m['prop'], 'quick', only=None, repo_root=tmp, quiet=True, write=False)
             # a recorded finding is keyed by the literal statement: after renaming it is reported again as a violation (it is one);
             # anything else reported on a behaviour-preserving transformation is a false alarm
